@@ -227,6 +227,9 @@ def build_shared_mps_qtz_map(mod: fx.GraphModule,
         sq_w = None
         # This ensures to work at every iteration with a 'fresh' dict
         curr_qinfo = copy.deepcopy(qinfo)
+        # the channels of a component tied to a network input cannot be pruned (as for outputs):
+        # the features seen by the following layers are those of the input itself
+        input_connected = any(n in get_graph_inputs(mod.graph) for n in c)
         for n in c:
             # identify a node which can give us the number of features with 100% certainty
             # nodes such as flatten/squeeze etc make this necessary
@@ -242,6 +245,8 @@ def build_shared_mps_qtz_map(mod: fx.GraphModule,
                    w_quantizer = curr_qinfo[key]['weight']['quantizer']
                    w_quantizer_kwargs = curr_qinfo[key]['weight']['kwargs']
                    w_mps_precision = curr_qinfo[key]['weight']['search_precision']
+                   if input_connected and w_search_type == MPSType.PER_CHANNEL:
+                       w_mps_precision = tuple(p for p in w_mps_precision if p != 0)
                    # Build activation shared quantizer
                    cout = n.meta['tensor_meta'].shape[1]
                    a_quantizer_kwargs['cout'] = cout
@@ -301,6 +306,8 @@ def build_shared_mps_qtz_map(mod: fx.GraphModule,
                 w_mps_precision = curr_qinfo[key]['weight']['search_precision']
                 cout = n.meta['tensor_meta'].shape[1]
                 w_quantizer_kwargs['cout'] = cout
+                if input_connected and w_search_type == MPSType.PER_CHANNEL:
+                    w_mps_precision = tuple(p for p in w_mps_precision if p != 0)
                 if w_search_type == MPSType.PER_LAYER:
                     sq_w = MPSPerLayerQtz(w_mps_precision,
                                           w_quantizer,
